@@ -9,7 +9,7 @@
     documented (validated against a real SQLite by the statement replay and the
     differential replay of the correspondence run). *)
 From Coq Require Import String List Bool ZArith.
-From LS Require Import Gen.Stmts Gen.FsSites Stmts.Model Stmts.Proofs Stmts.Lock.
+From LS Require Import Gen.Stmts Gen.FsSites Gen.TxSites Stmts.Model Stmts.Proofs Stmts.Lock.
 Import ListNotations.
 
 (** every SQL text reaching a database handle in package litestream and
@@ -50,7 +50,18 @@ Theorem init_sequence_wal : forall cs d, journal (exec_all (CJournalWal :: cs) d
 Proof. exact init_sequence_wal_lemma. Qed.
 Print Assumptions init_sequence_wal.
 
-(** checkpointWithExecutor, any mode, any outcome of each of its 18 fallible
+(** regenerated from the source: every BeginTx result is guarded by a deferred
+    rollback (or stored in an owning field / an already guarded variable) with
+    no unguarded early return in between; no transaction variable is cleared
+    without a rollback; no transaction is committed.  This discharges, for the
+    current source, the placement of the deferred rollbacks assumed by the
+    control-flow model of [lock_always_rolled_back]. *)
+Theorem tx_release_discipline :
+  forallb tx_site_ok tx_sites = true /\ nil_list tx_nil_without_release = true /\ nil_list tx_commits = true.
+Proof. exact tx_release_discipline_lemma. Qed.
+Print Assumptions tx_release_discipline.
+
+(** checkpointWithExecutor, any mode, any outcome of each of its 23 fallible
     steps, any lock table: nothing is left open, the committed content of
     _litestream_lock is unchanged, every insert is rolled back before return,
     nothing is committed *)
